@@ -24,6 +24,9 @@ def capacity_pred(cfg, lines, obs):
             sz, cap, inl, _ = c
             if not (sz <= cap <= cfg.kmax()):
                 out.append((o.idx, f'container {k}: size {sz} capacity {cap} max_size {cfg.kmax()}'))
+            # ... and against what max_size() itself reports
+            if o.maxsz is not None and k < len(o.maxsz) and not (cap <= o.maxsz[k]):
+                out.append((o.idx, f'container {k}: capacity() {cap} > max_size() {o.maxsz[k]}'))
             if prev is not None and op != 'new' and isinstance(prev[k], tuple):
                 pcap = prev[k][1]
                 if cap < pcap and k not in touched:
